@@ -37,11 +37,18 @@ def texts_for(u, v):
         # with nothing but blank lines and blanks added at its end: the end has moved
         "PROGRAM O_%s\nVAR x : INT; END_VAR\nx := 1;\n" % u,
         "PROGRAM O_%s\nVAR x : INT; END_VAR\nx := 1;\n\n\n  \n" % u,
+        # two problems of two rules, found in the other order than they stand in the document (the use before the declaration)
+        "PROGRAM W_%s\nVAR CONSTANT\n  k_%s : INT;\nEND_VAR\nVAR x : INT; END_VAR\n\n  (* é *) x := undeclared_w_%s;\nEND_PROGRAM\n" % (u, u, u),
+        # a problem about the other document's function block (unknown input: labels in both documents) and one of its own
+        "PROGRAM X_%s\nVAR i : G_%s; x : INT; END_VAR\n\n\ni(nosuchinput := 1);\n  x := undeclared_x_%s;\nEND_PROGRAM\n" % (u, v, u),
+        # the function block the other document may call, and further down a problem of this document's own
+        "FUNCTION_BLOCK G_%s\nVAR_INPUT inp : INT; END_VAR\nVAR x : INT; END_VAR\nx := inp;\nEND_FUNCTION_BLOCK\n\n\n\n"
+        "PROGRAM Y_%s\nVAR y : INT; END_VAR\n\n\n\n        y := undeclared_y_%s;\nEND_PROGRAM\n" % (u, u, u),
     ]
 
 
 TEXT_NAMES = ["valid", "lexical", "syntax", "semantic", "depends", "shared", "many", "same-lexical", "same-syntax", "open-end",
-              "open-end-blank-lines"]
+              "open-end-blank-lines", "two-rules", "calls-other", "callee-and-own-problem"]
 
 
 def diag_key(d):
@@ -169,6 +176,7 @@ def check_history(world, history, res, tag, versions="increasing", on_disk=None)
     per_doc = {}
     vr = core.rng_for("versions", tag, str(history)[:200])
     ok = True
+    closed_once = False
     res.count("versions:" + versions)
     res.count("uri-style:" + world.style)
     try:
@@ -177,6 +185,28 @@ def check_history(world, history, res, tag, versions="increasing", on_disk=None)
             if op == "disk":
                 # the file appears on disk (saved by another program); it is not an open document
                 open(os.path.join(world.root, world.fname[u]), "w").write(text)
+                continue
+            if op == "close":
+                # the document is closed: it is no longer an open document.  What the server knows of it from then on is
+                # what its workspace folder held when it started (nothing without a workspace folder)
+                s.notify("textDocument/didClose", {"textDocument": {"uri": world.uris[u]}})
+                rid_ = s.tokens(world.uris[u])
+                s.wait_response(rid_, 20.0)
+                if world.workspace and u in (on_disk or {}):
+                    state[u] = on_disk[u]
+                else:
+                    state.pop(u, None)
+                closed_once = True
+                res.count("closes")
+                continue
+            if op == "folders":
+                # a notification that says nothing about any document
+                s.notify("workspace/didChangeWorkspaceFolders", {"event": {"added": [{"uri": "file://" + os.path.join(world.tmp, "elsewhere"),
+                                                                                          "name": "elsewhere"}], "removed": []}})
+                os.makedirs(os.path.join(world.tmp, "elsewhere"), exist_ok=True)
+                rid_ = s.tokens(world.uris[u])
+                s.wait_response(rid_, 20.0)
+                res.count("workspace-folder-notifications")
                 continue
             if op == "tokens":
                 # a request about a document, open or not: requests do not change what the server knows
@@ -217,7 +247,8 @@ def check_history(world, history, res, tag, versions="increasing", on_disk=None)
                 res.violation("wrong-version", "version", {"sent": version, "published": mine[0]["params"].get("version")}, case)
                 ok = False
             got = tuple(sorted(diag_key(d) for d in mine[0]["params"]["diagnostics"] if d.get("code") not in IGNORED_CODES))
-            names = "+".join(sorted("%s=%s" % (k, classify(world, k, v)) for k, v in state.items()))
+            names = "+".join(sorted("%s=%s" % (k, classify(world, k, v)) for k, v in state.items())) + \
+                (":after-close" if closed_once and not world.workspace else "")
             # ground truth that needs no reference: a diagnostic about SharedName starts where this document spells it
             lines_u = text.split("\n")
             for d_ in mine[0]["params"]["diagnostics"]:
@@ -310,6 +341,14 @@ def shard(shard_i, nshards, payload):
             [("open", "b", 5), ("open", "c", 0), ("open", "a", 5), ("change2", "c", 0), ("open", "c", 1)],
         ]
         three += [
+            [("open", "a", 0), ("open", "b", 4), ("folders", "a", 0), ("change", "b", 4), ("change", "a", 0)],
+            [("open", "a", 0), ("open", "b", 4), ("close", "a", 0), ("change", "b", 4)],
+        ]
+        three += [
+            [("open", "a", 13), ("open", "b", 12), ("change", "a", 13), ("change", "b", 12), ("change", "a", 11)],
+            [("open", "b", 12), ("open", "a", 13), ("open", "c", 11), ("change", "a", 13)],
+        ]
+        three += [
             [("open", "a", 4), ("disk", "b", 0), ("tokens", "b", 0), ("change", "a", 4), ("change", "a", 3), ("change", "a", 4)],
             [("disk", "b", 0), ("tokens", "b", 0), ("open", "a", 4), ("tokens", "a", 0), ("change", "a", 4)],
             [("open", "a", 4), ("disk", "b", 0), ("tokens", "b", 0), ("open", "b", 1), ("change", "a", 4), ("tokens", "c", 0)],
@@ -335,6 +374,10 @@ def shard(shard_i, nshards, payload):
                 ({"a": wt["a"][0]}, [("open", "b", 4), ("open", "a", 0), ("change", "a", 2), ("change", "a", 0)]),
                 ({"a": wt["a"][0], "b": wt["b"][0]}, [("open", "a", 3), ("open", "c", 0), ("change", "a", 0)]),
                 ({"a": wt["a"][5], "b": wt["b"][0]}, [("open", "b", 5), ("change", "b", 0), ("open", "a", 5)]),
+                # a document of the folder is opened with the text it has on disk and closed again: it is still part of the project
+                ({"a": wt["a"][0], "b": wt["b"][4]}, [("open", "a", 0), ("close", "a", 0), ("open", "b", 4), ("change", "b", 4)]),
+                ({"a": wt["a"][13], "b": wt["b"][12]}, [("open", "b", 12), ("close", "b", 12), ("open", "a", 13), ("change", "a", 13)]),
+                ({"a": wt["a"][0], "b": wt["b"][4]}, [("open", "b", 4), ("folders", "b", 0), ("change", "b", 4), ("open", "a", 0), ("folders", "a", 0), ("change", "b", 4)]),
             ]):
                 ok = check_history(wworld, h, res, "workspace-" + wmode, policies[(hj + shard_i) % 4], on_disk=disk)
                 res.count("workspace-histories")
